@@ -25,7 +25,10 @@ def run(ctx):
         'the Go port of the reference semantics used for large moduli is compared with the TLC evaluation on every toy-modulus probe',
         '0/0 under Div is treated as unspecified (q*0 == 0 holds for every q)',
         'a program that no valuation satisfies (constant division by zero) may be rejected at compile time',
+        'adversaries: every called hint output perturbed by one (first / last output), and the wrap attack on the deferred multiplication check (EmulatedMulCheck.tla) for single multiplications of two witnesses',
     ]
+    # what the deferred multiplication check binds, over toy parameters (bounded vs free carries)
+    ctx.tlc('EmulatedMulCheck', 'EmulatedMulCheck.cfg', workers=1, timeout=900)
     r1 = ctx.tlc('EmulatedOps', 'EmulatedOps_len1.cfg', workers=1, timeout=1800)
     one = r1.beh
     if len(one) != 1300:
@@ -37,7 +40,8 @@ def run(ctx):
         keep, per = [], {}
         for b in one:
             op = b['prog'][0]['op']
-            if per.get(op, 0) < 5:
+            # the two-witness multiplications carry the wrap-attack replay: always kept
+            if prog_str(b['prog']) in ('Mul(a,b)', 'Mul(a,a)', 'Sqr(a)') or per.get(op, 0) < 5:
                 per[op] = per.get(op, 0) + 1
                 keep.append(b)
         one = keep
